@@ -17,6 +17,7 @@ import numpy as np
 
 sys.path.insert(0, str(Path(__file__).resolve().parent))
 import history_run as H  # noqa: E402
+from indep import decode_indep  # noqa: E402
 from sedpack.io import Dataset, Metadata, DatasetStructure, Attribute  # noqa: E402
 
 SPLITS = H.SPLITS
@@ -49,6 +50,9 @@ def build(spec, tmp):
         compression=spec.get("compression", ""), examples_per_shard=spec["eps"], hash_checksum_algorithms=("sha256",)))
     base = 0
     for s in spec["sessions"]:
+        if s.get("set_eps"):
+            # the structure is changed through the public setter before this session: later shards are smaller than the earlier ones
+            ds.dataset_structure = ds.dataset_structure.model_copy(update={"examples_per_shard": s["set_eps"]})
         if s["kind"] == "filler":
             sub = Path(*[f"d{x}" for x in s["sub"]]) if s["sub"] else Path(".")
             with H.DatasetFiller(ds, relative_path_from_split=sub) as f:
@@ -387,7 +391,7 @@ def reference(root):
     def walk(rel, seq, shards):
         d = json.loads((root / rel).read_text())
         for sh in d.get("shard_files", []):
-            ex = H.decode(ds, root / sh["file_infos"][0]["file_path"])
+            ex = decode_indep(ds, root / sh["file_infos"][0]["file_path"])
             shards.append([ex, int(sh.get("custom_metadata", {}).get("k", 0))])
             seq += ex
         for ch in d.get("children_shard_lists", []):
